@@ -150,10 +150,10 @@ func genArgs(c *Ctx, name string, proto int) []string {
 		return pickN(c, []string{"example.com", "a.b.c", "", "x", "with..dots", strings.Repeat("l", 64) + ".org", strings.Repeat("m", 300), "trailing.", ".leading", "sub.example.net",
 			strings.Repeat("l", 63) + ".org", strings.Repeat("é", 32) + ".example", strings.Repeat("é", 31) + ".example", strings.Repeat("😀", 16) + ".org", strings.Repeat("😀", 60) + ".org"}, 0, 3)
 	case "staticroute":
-		pool := []string{"10.0.0.0/8,192.168.1.1", "0.0.0.0/0,10.0.0.1", "192.168.5.0/24,192.168.1.254", "10.1.2.3/32,10.0.0.1", "10.128.0.0/9,10.0.0.1",
+		pool := []string{"10.0.0.0/8,192.168.1.1", "0.0.0.0/0,10.0.0.1", "192.168.5.0/24,192.168.1.254", "10.1.2.3/32,10.0.0.1", "10.128.0.0/9,10.0.0.1", "10.1.2.3/12,192.168.1.1", "192.168.5.77/20,10.0.0.1",
 			"2001:db8::/32,10.0.0.1", "10.0.0.0/8,2001:db8::1", "::ffff:10.0.0.0/104,192.168.1.1", "::/0,10.0.0.1", "10.0.0.0/8", "10.0.0.0/8,1.1.1.1,2.2.2.2", "10.0.0.0/33,1.1.1.1", "garbage", "10.0.0.0/8,", ",10.0.0.1"}
 		if r.Pct(50) {
-			return pickN(c, pool[:5], 1, 3)
+			return pickN(c, pool[:7], 1, 3)
 		}
 		return pickN(c, pool, 0, 3)
 	case "lease_time", "sleep":
@@ -255,7 +255,7 @@ func battery4(c *Ctx, name string, args []string) []run4 {
 	other := net.IP{10, 77, 77, 77}
 	switch name {
 	case "server_id":
-		sis := []net.IP{nil, {0, 0, 0, 0}, own, other}
+		sis := []net.IP{nil, {0, 0, 0, 0}, own, other, {169, 254, 10, 2}, {127, 0, 0, 1}, {224, 0, 0, 5}, {255, 255, 255, 255}}
 		o54s := [][]byte{nil, {0, 0, 0, 0}, own, other, {1, 2, 3}}
 		for _, si := range sis {
 			for _, o := range o54s {
@@ -346,7 +346,10 @@ func battery6(c *Ctx, name string, args []string) []run6 {
 		}
 		return run6{rq, rp}
 	}
-	oroSets := [][][]uint16{nil, {{23}}, {{24}}, {{59}}, {{60}}, {{59, 60}}, {{59, 59}}, {{60, 59, 23}}, {{59}, {60}}, {{23, 24, 17}}, {{}}}
+	// (the library drops duplicates inside one Option Request option when parsing; two ORO options
+	// listing the same code are merged into a list that has it twice)
+	oroSets := [][][]uint16{nil, {{23}}, {{24}}, {{59}}, {{60}}, {{59, 60}}, {{59, 59}}, {{60, 59, 23}}, {{59}, {60}}, {{23, 24, 17}}, {{}},
+		{{59}, {59}}, {{60}, {60}}, {{59, 60}, {60, 59}}, {{23}, {23}}, {{24}, {24, 24}}}
 	if name == "server_id" {
 		sids := [][]byte{nil}
 		if own != nil {
